@@ -35,6 +35,9 @@ def _leaf(fn):
 
 
 def run(ctx, obs):
+    from ..rules import order as _order
+    _order.contracts(ctx, obs, ['util.data_utils.get_unique_inverse'])
+    _order.report(ctx, obs, ['rdm.calc_unbalanced.'])
     from ..rules import sweeps
     sweeps.run(ctx, obs, 'C15')
     mod = ctx.pyx.get(PYX)
